@@ -231,7 +231,7 @@ class Logic:
         return lambda a, b: lt(a, b)
 
     # ---------------------------------------------------------------- closures
-    def rtc(self, R, name="rtc"):
+    def rtc(self, R, name="rtc", params=()):
         """Reflexive-transitive closure of the binary relation R (callable).
 
         unbounded mode: fresh predicate with axioms
@@ -244,7 +244,14 @@ class Logic:
         finite mode: the same plus the rank axiom which makes rtc exactly reachability.
         """
         nm = self.fresh_name(name)
-        C = z3.Function(nm, self.Node, self.Node, self.B)
+        params = list(params)
+        if params:
+            # the relation depends on enclosing iteration constants: the closure symbol takes them as extra arguments and its
+            # axioms are closed over them
+            F = z3.Function(nm, *([p.sort() for p in params] + [self.Node, self.Node]), self.B)
+            C = lambda a, b: F(*params, a, b)
+        else:
+            C = z3.Function(nm, self.Node, self.Node, self.B)
         ax = [
             self.forall(1, lambda a: C(a, a)),
             self.forall(2, lambda a, b: self.Implies(R(a, b), C(a, b))),
@@ -261,11 +268,14 @@ class Logic:
             if "y0_rtc_symm" not in self.lemma_uses:
                 self.lemma_uses.append("y0_rtc_symm")
         else:
-            d = z3.Function(nm + "_rank", self.Node, self.Node, z3.IntSort())
+            d0 = z3.Function(nm + "_rank", *([p.sort() for p in params] + [self.Node, self.Node]), z3.IntSort())
+            d = lambda a, b: d0(*params, a, b)
             ax.append(self.forall(2, lambda a, b: d(a, b) >= 0))
             ax.append(self.forall(2, lambda a, b: self.Implies(
                 self.And(C(a, b), a != b),
                 self.exists(1, lambda c: self.And(R(a, c), C(c, b), d(c, b) < d(a, b))))))
+        if params:
+            ax = [self.forall_c(params, a) for a in ax]
         self.add_axioms({nm}, ax)
         fn = lambda a, b: C(a, b)
         self.closures.append((nm, R, fn))
